@@ -35,6 +35,7 @@ type nodeJ struct {
 	Target []string `json:"target"`
 	Marks  []markJ  `json:"marks"`
 	Unk    bool     `json:"unk"` // content is not a concatenation of known chunks (cid starts with "?")
+	Any    bool     `json:"any"` // hostile content: what opening this file yields is unspecified (only "no crash" is demanded)
 
 	// input only
 	Islands [][2][2]int64 `json:"islands,omitempty"` // sparse content: [[off],[len]] pairs
@@ -290,6 +291,7 @@ func (w *world) snapshot() ([]nodeJ, string, error) {
 			ci, known := w.carry[dir]
 			if known && ci.size == st.Size() && ci.mtime.Equal(st.ModTime()) && ci.ino == sys.Ino {
 				n.Cid, n.Vcid, n.Vsize, n.Marks = ci.node.Cid, ci.node.Vcid, ci.node.Vsize, ci.node.Marks
+				n.Any = ci.node.Any
 				if n.Marks == nil {
 					n.Marks = []markJ{}
 				}
